@@ -284,6 +284,23 @@ class World:
             base.set(I, key, v); return True
         return False
 
+    def member_formula(self, I, container: SList, x):
+        """`x in container` for an element x of another symbolic list: an uninterpreted predicate of x's index, together with
+        the position it has in `container` when it is a member (duplicate-free lists: ModelingObject.__eq__ is id equality)"""
+        idx = x.index if isinstance(x.index, tuple) else (x.index,)
+        ps = [I_] * len(idx)
+        IN = z3.Function(f"in[{container.name}]:{x.family}", *ps, B)(*idx)
+        POS = z3.Function(f"pos[{container.name}]:{x.family}", *ps, I_)(*idx)
+        I.eng.assume(z3.Implies(IN, z3.And(POS >= 0, POS < container.n)))
+        x.pos_in = getattr(x, "pos_in", {}); x.pos_in[container.name] = POS
+        return IN
+
+    def key_index(self, I, keys: SList, key):
+        """index, in the key list of a KDict, of an object used as key"""
+        if isinstance(key, ModelObj) and key.family == keys.name and not isinstance(key.index, tuple): return key.index
+        if isinstance(key, ModelObj) and keys.name in getattr(key, "pos_in", {}): return key.pos_in[keys.name]
+        raise Unsupported("dict key is not an element of the key list")
+
     def lib_binop(self, I, t, a, b): return None
     def call_builtin(self, I, name, args, kwargs): return NotImplemented
     def issubclass(self, a, b):
@@ -474,9 +491,23 @@ class UPDict:
         self.fresh = False
 
     def get(self, I, key):
-        if not isinstance(key, ModelObj) or isinstance(key.index, tuple):
+        if not isinstance(key, ModelObj):
             raise Unsupported("dict key is not a usage pattern")
         o = self.owner
+        if isinstance(key.index, tuple):
+            k = str(tuple(str(z3.simplify(x)) for x in key.index))
+            if k in self.written: return self.written[k]
+            base = f"{o.family}.{self.attr}[{key.family}]"
+            idx = key.index
+            ps = [I_] * len(idx)
+            fac = z3.Function(base + ".factor", *ps, R)(*idx); I.eng.assume(fac > 0)
+            fin = z3.Function(base + ".in", *ps, I_, B); fv = z3.Function(base + ".val", *ps, I_, R)
+            vec = Vec(lambda t: fin(*idx, t), lambda t: fv(*idx, t), total=z3.Function(base + ".total", *ps, R)(*idx),
+                      n=z3.Function(base + ".len", *ps, I_)(*idx))
+            e = Expl("ehq", DF(vec, Unit(self.dim, fac, base)), Label(True, base), attached=(o.key(self.attr) + (k,)), fresh_obj=False)
+            v = ExplU(z3.Function(base + ".empty", *ps, B)(*idx), e)
+            self.written[k] = v
+            return v
         if key.index is None:
             k = key.name
             if k in self.written: return self.written[k]
